@@ -3,7 +3,9 @@
    library drew from the caller's generator) is judged against ref/Bign.tla.
    Every line: error classification, ranges and the RELATIONS of the property (a produced signature verifies and its
    S1 satisfies the signing equation for the k the tape defines; a generated pair passes validation; a wrapped key
-   unwraps to itself; DH is symmetric).  Lines with lvl = 1 are recomputed in full (scalar multiplications). *)
+   unwraps to itself; DH is symmetric; an extracted identity key is (S1 + H0) mod q and is accepted by the id-signing
+   functions whatever its value; an id-signature satisfies the equation of B.2.4 and verifies under the extracted
+   key).  Lines with lvl = 1 are recomputed in full (scalar multiplications). *)
 EXTENDS Bign, Json, IOUtils, TLC
 
 Tr == ndJsonDeserialize(IOEnv.TRACE)
@@ -78,6 +80,50 @@ DhOk(r) ==
      /\ (Len(r.QA) = 2 * P.no => DhSide(P, r.rb, r.kB, r.dB, r.QA, r.n, 0))
      /\ ((r.ra = "OK" /\ r.rb = "OK") => r.kA = r.kB)                                  \* symmetry
 
+\* ---- appendix B.  The trusted party's key Q is treated as in 7.1.4 (in the field but off the curve: rejected with any
+\* code); the identity public key R must be a point of the curve (bign.h), in the field but off the curve: rejected.
+PubClass(P, Qo) == IF PubkeyValid(P, Qo) THEN "ok" ELSE IF PubInField(P, Qo) THEN "offcurve" ELSE "outside"
+IdExtractOk(r) ==
+  LET P == Params(r.l)  qc == PubClass(P, r.Q)
+  IN /\ r.inmod = 0                                                                  \* the inputs are inputs
+     /\ IF ~OidValid(r.oid) THEN r.rc = "BAD_OID"
+        ELSE IF qc = "outside" THEN r.rc = "BAD_PUBKEY"
+        ELSE IF qc = "offcurve" THEN r.rc # "OK"
+        ELSE IF ~SigInRange(P, r.sig) THEN r.rc = "BAD_SIG"
+        ELSE /\ r.rc \in {"OK", "BAD_SIG"}
+             /\ (r.rc = "OK") = (r.vrc = "OK")                  \* B.2.3 accepts exactly the signatures 7.1.4 accepts
+             /\ (r.rc = "OK" => /\ Len(r.e) = P.no /\ Num(r.e) = IdPrivOf(P, r.H0, r.sig)      \* e = (S1 + H0) mod q
+                                /\ PubkeyValid(P, r.R))
+             /\ (r.lvl = 1 => LET x == IdExtract(P, r.oid, r.H0, r.sig, r.Q)
+                              IN IF x.st = "ok" THEN r.rc = "OK" /\ Num(r.e) = x.e /\ r.R = PtOct(P, x.R)
+                                 ELSE r.rc = "BAD_SIG")
+\* an id-signature produced with nonce k under the identity key e (ANY e in {0..q-1})
+IdSigOk(P, r, k) ==
+  /\ Len(r.sig) = P.no + P.no \div 2
+  /\ Num(SigS1(P, r.sig)) = S1Of(P, Num(SigS0(P, r.sig)), r.H, Num(r.e), k)          \* the signing equation of B.2.4
+  /\ (Len(r.R) > 0 => r.vrc = "OK")                                                 \* under a genuine (e, R), Q it verifies
+  /\ (r.lvl = 1 => SigS0(P, r.sig) = HashL2(P, r.oid, EB!ScalarMulJ(Curve(P), k, G(P)), r.H0, r.H))
+IdSignOk(r) ==
+  LET P == Params(r.l)  s == SampleNZ(P, r.tape)
+  IN IF ~OidValid(r.oid) THEN r.rc = "BAD_OID"
+     ELSE IF ~IdKeyInRange(P, Num(r.e)) THEN r.rc = "BAD_PRIVKEY"
+     ELSE IF ~s.ok THEN r.rc = "BAD_RNG"
+     ELSE r.rc = "OK" /\ r.used = s.tries * P.no /\ IdSigOk(P, r, s.v)
+IdSign2Ok(r) ==
+  LET P == Params(r.l)
+  IN IF ~OidValid(r.oid) THEN r.rc = "BAD_OID"
+     ELSE IF ~IdKeyInRange(P, Num(r.e)) THEN r.rc = "BAD_PRIVKEY"
+     ELSE LET n == DetNonce(P, r.oid, Num(r.e), r.H, r.t)                            \* alg. 6.3.3 with e in the place of d
+          IN r.rc = "OK" /\ (n.ok => IdSigOk(P, r, n.k)) /\ (Len(r.R) > 0 => r.vrc = "OK")
+IdVerifyOk(r) ==
+  LET P == Params(r.l)  rcl == PubClass(P, r.R)  qc == PubClass(P, r.Q)
+  IN IF ~OidValid(r.oid) THEN r.rc = "BAD_OID"
+     ELSE IF rcl = "outside" \/ qc = "outside" THEN r.rc = "BAD_PUBKEY"
+     ELSE IF rcl = "offcurve" \/ qc = "offcurve" THEN r.rc # "OK"
+     ELSE IF ~SigInRange(P, r.sig) THEN r.rc = "BAD_SIG"
+     ELSE /\ r.rc \in {"OK", "BAD_SIG"}
+          /\ (r.lvl = 1 => r.rc = (IF IdVerify(P, r.oid, r.H0, r.H, r.sig, r.R, r.Q) = "ok" THEN "OK" ELSE "BAD_SIG"))
+
 LineOk(r) ==
   CASE r.op = "keygen" -> KeygenOk(r)
     [] r.op = "pubcalc" -> PubcalcOk(r)
@@ -87,6 +133,10 @@ LineOk(r) ==
     [] r.op = "wrap" -> WrapOk(r)
     [] r.op = "unwrap" -> UnwrapOk(r)
     [] r.op = "dh" -> DhOk(r)
+    [] r.op = "idextract" -> IdExtractOk(r)
+    [] r.op = "idsign" -> IdSignOk(r)
+    [] r.op = "idsign2" -> IdSign2Ok(r)
+    [] r.op = "idverify" -> IdVerifyOk(r)
     [] r.op = "skip" -> TRUE
     [] OTHER -> FALSE
 
